@@ -38,6 +38,7 @@ class Result:
         self.nontrivial = False
         self.model_skipped = False
         self.error = None            # machinery error
+        self.model_violations = []   # (search mode) the oracle evaluated on the *model's* observation
 
 
 class Prop:
@@ -105,6 +106,14 @@ class Prop:
             d = engine.diff(self.normalize(impl_obs), self.normalize(model_obs))
             if d:
                 res.disagreement = d
+            if getattr(self, 'search_model', False):
+                # failing-input search: does the *model* violate the property on this input?
+                rm = Result()
+                try:
+                    self.oracle(case, model_obs, rm)
+                    res.model_violations = list(rm.violations)
+                except Exception:
+                    pass
         else:
             res.model_skipped = True
         return res, impl_obs, model_obs
@@ -124,10 +133,11 @@ def corpus_cases(prop):
 
 
 def _worker(args):
-    prop_mod, prop_cls, seeds, tier = args
+    prop_mod, prop_cls, seeds, tier = args[:4]
     import importlib
     mod = importlib.import_module(prop_mod)
     prop = getattr(mod, prop_cls)()
+    prop.search_model = len(args) > 4 and bool(args[4])
     driver = None
     try:
         driver = engine.Driver()
@@ -168,7 +178,7 @@ def _worker(args):
             res.error = traceback.format_exc()[-1500:]
             case = None
         keep = None
-        if case is not None and (res.violations or res.disagreement or res.error):
+        if case is not None and (res.violations or res.disagreement or res.error or res.model_violations):
             keep = case.payload
         out.append((seed, engine.case_hash(case.payload) if case else None, res, keep,
                     (case.payload if (case is not None and seed == seeds[0]) else None)))
@@ -202,7 +212,7 @@ def shrink(prop, case, driver, pred):
 
 def run_check(prop, tier, seed, replay=None, jobs=None, n_cases=None, write_evidence=True):
     t0 = time.time()
-    jobs = jobs or (4 if tier == 'quick' else 14)
+    jobs = jobs or (8 if tier == 'quick' else 16)
     out_lines = []
     notes = []
 
@@ -327,10 +337,49 @@ def run_check(prop, tier, seed, replay=None, jobs=None, n_cases=None, write_evid
         if f['id'] in seen_known:
             out_lines.append('KNOWN-FINDING: property=%s %s' % (prop.id, f['what']))
 
+    searched = 0
+    model_cex = None
+    if exit_code == 0 and (disag or proof_broken) and not replay:
+        # the property is no longer *shown* to hold.  Search for a concrete failing input: a fresh,
+        # larger batch of generated cases (other seeds, thorough knobs) on which the oracle is
+        # evaluated on the implementation *and* on the model.
+        n2 = 3 * (n_cases or (prop.quick_cases if tier == 'quick' else prop.thorough_cases))
+        master2 = random.Random(seed ^ 0x5EA2C4)
+        seeds2 = [master2.getrandbits(48) for _ in range(n2)]
+        chunks2 = [c for c in (seeds2[i::jobs] for i in range(jobs)) if c]
+        args2 = [(prop.__class__.__module__, prop.__class__.__name__, ch, 'thorough', True) for ch in chunks2]
+        if jobs > 1 and len(chunks2) > 1:
+            with multiprocessing.Pool(len(chunks2)) as pool:
+                outs2 = pool.map(_worker, args2)
+        else:
+            outs2 = [_worker(a) for a in args2]
+        for out in outs2:
+            for (s2, h2, res2, keep2, _) in out:
+                searched += 1
+                if res2.error or keep2 is None:
+                    continue
+                if res2.model_violations and model_cex is None:
+                    model_cex = (keep2, res2.model_violations[:2])
+                if res2.violations and reported < 3:
+                    case = Case(keep2, prop.rebuild(keep2), origin='search:%d' % s2)
+                    if any(prop.known_signature(f, case, res2) for f in known):
+                        continue
+                    small = shrink(prop, case, driver, lambda r: bool(r.violations))
+                    r3, _, _ = prop.run_case(small, driver)
+                    report('violation', 'search:%d' % s2, small.payload,
+                           'found by the failing-input search after a broken obligation: '
+                           + '; '.join((r3.violations or res2.violations)[:3]))
+                    reported += 1
+
     if exit_code == 0 and (disag or proof_broken):
-        # the property is no longer *shown* to hold: say which obligation broke; a failing input
-        # was searched for (every case above also ran the oracle on the implementation) and not found
+        # say which obligation broke; a failing input was searched for (the oracle ran on the
+        # implementation for every case of this run and of the search batch) and not found
         what = []
+        if searched:
+            what.append('failing-input search: %d further cases, none fails on the implementation' % searched)
+        if model_cex is not None:
+            what.append('the MODEL violates the property on the attached search case (%s): model and code disagree there'
+                        % '; '.join(model_cex[1]))
         if proof_broken:
             what += proof_broken
         payload = {'note': 'no failing input found'}
